@@ -133,6 +133,41 @@ pub fn run(reg: &[Box<dyn TypeOps>], cfg: &Cfg, out: &mut dyn Write) {
                 let c = if is_async { with_pendings(&mut rng, &c, 2) } else { c };
                 recv_line(&c, &s, nrecv + 3, out);
             }
+            // ---- complete but malformed in content: the receiver must report a parse error, not ask for more input
+            {
+                let mut cases: Vec<Vec<u8>> = vec![];
+                if sh.constrained() {
+                    let mut cs = vec![];
+                    constraints(&sh, &stream, 0, sizes[0], &mut cs);
+                    for _ in 0..2 {
+                        if cs.is_empty() { break; }
+                        let mut m = stream.clone();
+                        match cs[rng.below(cs.len() as u64) as usize].clone() {
+                            Constraint::Bool(p) => { if p < sizes[0] { m[p] = 2 + rng.below(250) as u8; cases.push(m); } }
+                            Constraint::Tag(p, w, be, n) => {
+                                let maxv = if w >= 8 { u64::MAX } else { (1u64 << (8 * w)) - 1 };
+                                if (n as u64) <= maxv && p + w <= sizes[0] { let enc = LenS { size: w, align: 1, be }.encode(n as u128); m[p..p + w].copy_from_slice(&enc); cases.push(m); }
+                            }
+                            Constraint::Utf8(a, b) => { if b > a && b <= sizes[0] { let i = a + rng.below((b - a) as u64) as usize; m[i] = 0xff; cases.push(m); } }
+                        }
+                    }
+                }
+                if let Shape::Flex(_, l) = &sh {
+                    // an offset slot that points inside its own header can never become valid
+                    let os = sh.data_offset();
+                    if os > 1 {
+                        let mut m = l.encode(1 + rng.below(os as u64 - 1) as u128);
+                        m.extend(std::iter::repeat(0u8).take(4 * max.max(t.min_size()) + 8));
+                        cases.push(m);
+                    }
+                }
+                for m in cases {
+                    let c = composition(&mut rng, m.len().max(1), 13);
+                    let c = if is_async { with_pendings(&mut rng, &c, 2) } else { c };
+                    recv_line(&c, &m, 3, out);
+                    writeln!(out, "X {} {} {} => parse", tid, max, hex(&m)).unwrap();
+                }
+            }
             // ---- async pair over a bounded pipe
             if is_async {
                 for _ in 0..(if cfg.thorough { 6 } else { 2 }) {
